@@ -11,7 +11,8 @@
      vals_distinct ks  : a request / key list without equal keys
      listed ks p       : the key of pair p is one of ks. *)
 From Agdb Require Import Bytes DbValue Graph DbModel Search Queries Revisions
-  DbValueEqProofs KvProofs KvDbProofs KvSelectProofs QStepProofs.
+  DbValueEqProofs KvProofs KvDbProofs KvSelectProofs QStepProofs
+  IndexDb3Proofs DbInvProofs QueryInvProofs SearchLiveProofs HistoryInvProofs HistoryExamples.
 Open Scope Z_scope.
 
 (* ---- key equality is an equivalence; on values whose f64 payloads are 64-bit patterns it is
@@ -199,3 +200,35 @@ Example C09_nonvacuous :
   exec_select rv_fixed d (SelectValues [c09_k 1] (Ids [QId 1])) = QErr ENotFound.
 Proof. exact c09_example. Qed.
 Print Assumptions C09_nonvacuous.
+
+(* ---- all histories -------------------------------------------------------------------------
+   FULL STATEMENT (property text): for ANY history whose insert lists have distinct keys, every
+   element's properties form an ordered map without duplicate keys and only existing elements have
+   properties (so a new element reusing a slot never inherits any); the selection theorems above
+   then describe every read.
+
+   Inv / query_ok / traversal_live / all_succeed: see Props/C10.v (same joint invariant).
+   PROVED: C09_transaction_partial (every state inside a running transaction, the partial state of a
+   failing query included), C09_history_partial (every history from db_new in which no query fails).
+   MISSING for the full statement: (1) `traversal_live rv_fixed` (graph traversals return only
+   existing elements; C14/C17) is a hypothesis; (2) states after the rollback of a failing query (C13). *)
+Theorem C09_transaction_partial :
+  traversal_live rv_fixed ->
+  forall d qs acc, Forall query_ok qs -> Inv d ->
+  let d1 := fst (fst (txn_run rv_fixed d qs acc)) in kvs_distinct (vals d1) /\ vals_live d1.
+Proof.
+  intros Ht d qs acc Hq Hd. pose proof (transaction_state_Inv rv_fixed Ht eq_refl d qs acc Hq Hd) as H.
+  split; [now apply Inv_distinct|apply (Inv_index _ H)].
+Qed.
+Print Assumptions C09_transaction_partial.
+
+Theorem C09_history_partial :
+  traversal_live rv_fixed ->
+  forall qs, Forall query_ok qs -> all_succeed rv_fixed db_new qs ->
+  kvs_distinct (vals (exec_all rv_fixed db_new qs)) /\ vals_live (exec_all rv_fixed db_new qs).
+Proof. intros Ht. exact (history_values rv_fixed Ht eq_refl). Qed.
+Print Assumptions C09_history_partial.
+
+Example C09_history_nonvacuous : Forall query_ok c09_history /\ all_succeed rv_fixed db_new c09_history.
+Proof. exact c09_history_ok. Qed.
+Print Assumptions C09_history_nonvacuous.
